@@ -18,6 +18,9 @@ import PyModeS.Tie.Is60
 import PyModeS.Generated.Src.bds
 import Mathlib.Tactic.SplitIfs
 
+-- symbolic execution of long generated `do` blocks: generous but finite budget (proof times are seconds)
+set_option maxHeartbeats 1000000
+
 set_option linter.unusedSimpArgs false
 set_option linter.unusedTactic false
 set_option linter.unreachableTactic false
